@@ -271,18 +271,42 @@ where
 
         let mls_group_id = group.mls_group_id.clone();
 
-        // Save the pending group
-        self.storage()
-            .save_group(group)
-            .map_err(|e| Error::Group(e.to_string()))?;
+        // An invitation is untrusted input that has not been consented to: it must never
+        // overwrite the record (state, Nostr group id, admins, relays, last message) of a
+        // group the user is already an active member of.
+        let already_active = self
+            .get_group(&mls_group_id)?
+            .is_some_and(|existing| existing.state == group_types::GroupState::Active);
 
-        // Save the group relays
-        self.storage()
-            .replace_group_relays(
-                &mls_group_id,
-                welcome_preview.nostr_group_data.relays.clone(),
-            )
-            .map_err(|e| Error::Group(e.to_string()))?;
+        if already_active {
+            // Nothing is written for an active group, but the invitation is still refused
+            // when it claims the Nostr group id of a *different* group (the storage layer
+            // refuses that for a pending record as well).
+            let claimed = welcome_preview.nostr_group_data.nostr_group_id;
+            if self
+                .storage()
+                .find_group_by_nostr_group_id(&claimed)
+                .map_err(|e| Error::Group(e.to_string()))?
+                .is_some_and(|other| other.mls_group_id != mls_group_id)
+            {
+                return Err(Error::Group(
+                    "nostr_group_id already exists for a different group".to_string(),
+                ));
+            }
+        } else {
+            // Save the pending group
+            self.storage()
+                .save_group(group)
+                .map_err(|e| Error::Group(e.to_string()))?;
+
+            // Save the group relays
+            self.storage()
+                .replace_group_relays(
+                    &mls_group_id,
+                    welcome_preview.nostr_group_data.relays.clone(),
+                )
+                .map_err(|e| Error::Group(e.to_string()))?;
+        }
 
         let processed_welcome = welcome_types::ProcessedWelcome {
             wrapper_event_id: *wrapper_event_id,
